@@ -102,6 +102,7 @@ class RationalQuadraticSpline(AbstractBijection):
         in_bounds = jnp.logical_and(x >= self.interval[0], x <= self.interval[1])
         x_robust = jnp.where(in_bounds, x, 0)  # To avoid nans
         k = jnp.searchsorted(x_pos, x_robust) - 1  # k is bin number
+        k = jnp.clip(k, 0, len(x_pos) - 2)  # x == interval[0] would give -1
         xi = (x_robust - x_pos[k]) / (x_pos[k + 1] - x_pos[k])
         sk = (y_pos[k + 1] - y_pos[k]) / (x_pos[k + 1] - x_pos[k])
         dk, dk1, yk, yk1 = derivatives[k], derivatives[k + 1], y_pos[k], y_pos[k + 1]
@@ -124,6 +125,7 @@ class RationalQuadraticSpline(AbstractBijection):
         in_bounds = jnp.logical_and(y >= self.interval[0], y <= self.interval[1])
         y_robust = jnp.where(in_bounds, y, 0)  # To avoid nans
         k = jnp.searchsorted(y_pos, y_robust) - 1
+        k = jnp.clip(k, 0, len(y_pos) - 2)  # y == interval[0] would give -1
         xk, xk1, yk, yk1 = x_pos[k], x_pos[k + 1], y_pos[k], y_pos[k + 1]
         sk = (yk1 - yk) / (xk1 - xk)
         y_delta_s_term = (y_robust - yk) * (
@@ -152,6 +154,7 @@ class RationalQuadraticSpline(AbstractBijection):
         in_bounds = jnp.logical_and(x >= self.interval[0], x <= self.interval[1])
         x_robust = jnp.where(in_bounds, x, 0)  # To avoid nans
         k = jnp.searchsorted(x_pos, x_robust) - 1
+        k = jnp.clip(k, 0, len(x_pos) - 2)  # x == interval[0] would give -1
         xi = (x_robust - x_pos[k]) / (x_pos[k + 1] - x_pos[k])
         sk = (y_pos[k + 1] - y_pos[k]) / (x_pos[k + 1] - x_pos[k])
         dk, dk1 = derivatives[k], derivatives[k + 1]
